@@ -195,11 +195,39 @@ def gen_udp_wait_write(rng, k):
     return L
 
 
+def gen_wait_close(rng, k):
+    """a wait-for-read (null-buffers style) or a read is outstanding on a connected socket on which no data
+    arrives; the socket is then closed, re-opened, cancelled or destroyed: the outstanding handler must run
+    exactly once (operation_aborted)"""
+    r = rng
+    net = ncommon.Net(r, nnodes=2, bw=r.choice([0, 800000]), lat=r.choice([0, 1000000]))
+    L = list(net.lines)
+    ops = ["acc_new 1 1", "tcp_open 1 1", "tcp_bind 1 0 0 1337", "listen 1 10", "tcp_new 10 1", "accept 1 10 0 102",
+           "tcp_new 11 2", "tcp_connect 11 0 %d 1337 105" % ncommon.A1]
+    H = {102: [r.choice(["tcp_wait 10 103", "tcp_wait 10 103", "tcp_read 10 103 : 100"])],
+         105: [r.choice(["tcp_wait 11 106", "tcp_read 11 106 : 100", "tcp_wait 11 106"])]}
+    ops += ["expires_at 7 %d" % r.choice([1000000000, 50000000]), "async_wait 7 110",
+            "expires_at 8 %d" % r.choice([2000000000, 1500000000]), "async_wait 8 111"]
+    H[110] = [r.choice(["tcp_close 10", "tcp_close 10", "tcp_open 10 1", "tcp_cancel 10", "tcp_destroy 10"])]
+    H[111] = [r.choice(["tcp_close 11", "tcp_open 11 1", "tcp_cancel 11", "tcp_close 11"])]
+    L += ["M " + o for o in ops]
+    for h in sorted(H):
+        L += ["H %d %s" % (h, o) for o in H[h]]
+    L.append("M run")
+    return L
+
+
 def generate(rng, tier):
     n = 50 if tier == "quick" else 1500
     ns = 20 if tier == "quick" else 400
     nw = 3 if tier == "quick" else 40
-    return generate1(rng, tier, n, ns) + [("ww%d" % k, gen_udp_wait_write(rng, k)) for k in range(nw)]
+    from . import c11
+    nm = 6 if tier == "quick" else 100
+    # sockets moved at rest (accepted socket, connected client, acceptor), the moved-from object destroyed,
+    # then the moved-to object closed and its endpoint used again
+    return (generate1(rng, tier, n, ns) + [("ww%d" % k, gen_udp_wait_write(rng, k)) for k in range(nw)]
+            + [("mv%d" % k, c11.gen_move(rng, k)) for k in range(nm)]
+            + [("wc%d" % k, gen_wait_close(rng, k)) for k in range(nm)])
 
 
 def generate1(rng, tier, n, ns):
